@@ -14,20 +14,20 @@ TECH = {
     "C02": "affine abstract interpretation of the cut end to end (owner order, keep flags, trim arithmetic) for 2 and 3 owners x both strands: pieces tile the contig; structural order/orientation rules",
     "C01": "who-may-call + must-pass-through (post-dominance over enumerated paths) + typestate on row removal + backward-slice check of the cut QC",
     "C03": "resolved-callee dispatch facts, sibling normal-form comparison of the chunkers, affine ghost-counter invariant for line wrapping, CLI pairing by def-use",
-    "C04": "def-use provenance of the stripped suffix, regex-AST class check, affine tiling invariant over the run list, codec column-order agreement",
-    "C05": "codec agreement: writer template vs reader field map extracted from the AST; exhaustive folding of strand / gap-type tables; path enumeration of the line loops",
-    "C06": "affine-equality abstract interpretation of format_agp (symbolic columns vs running position) + single-writer who-may-call",
+    "C04": "path-sensitive constant propagation of the line loop's header and sequence arms on probe lines (payload, line width, terminator width, record name), regex-AST class check, affine tiling invariant over the run list, path rule for the residue-counter invariant, codec column-order agreement",
+    "C05": "codec agreement: writer template vs reader field map extracted from the AST; exhaustive folding of strand / gap-type tables; path enumeration of the line loops; header round trip by constant propagation through the reader loop; cache-key completeness by def-use",
+    "C06": "affine-equality abstract interpretation of format_agp (symbolic columns vs running position) + single-writer who-may-call + memo-invalidation completeness for a memoised scaffold length",
     "C07": "call-site argument flow (join gap reaches every append onto a possibly non-empty scaffold), path pairing rules for gap stripping",
     "C09": "finite model check of extracted key expressions (fuse key vs destination key) + folded routing tables",
-    "C10": "finite model check of extracted key expressions (uniqueness direction) + counter/sort structure rules",
+    "C10": "finite model check of extracted key expressions (uniqueness direction) + counter/sort structure rules + typestate of the pending-unloc list over interprocedural event traces",
     "C11": "symbolic enumeration of the four strand cases of the junction encoding under whole-scaffold reversal + set-difference structure",
-    "C12": "loop-bound rule for index walks, affine loop invariant for the cumulative index, span/slice agreement",
-    "C13": "who-may-call on whole-record readers, buffer flush pairing on all paths, affine upper-bound substitution for chunk sizes",
-    "C14": "exhaustive table folding over 256 bytes, constructor-argument binding of reverse(), row-list reversal structure",
-    "C15": "validate-before-load dominance, strict-mtime comparison normal form, atomic-publication typestate (tmp -> write -> close -> replace)",
-    "C16": "who-may-write enumeration over the CLI call graph, finite string-set folding of open modes under the flag, flag propagation along call edges",
-    "C17": "set-typed value inference + order-sensitive-use rule, forbidden nondeterminism sources over the CLI call graphs, global-state mutation scan",
-    "C18": "affine-equality abstract interpretation of every OverlapResult mutator path (span = Σ row lengths), order-region decision of the derived figures",
+    "C12": "loop-bound rule for index walks, affine loop invariant for the cumulative index, span/slice agreement, must-pass-through of the gap walks (or path facts that the ends are not gaps), rows-consulted-by-kind-and-length rule",
+    "C13": "who-may-call on whole-record readers, buffer flush pairing on all paths, bounded write-back by path conditions, affine upper-bound substitution for chunk sizes, residue-counter invariant (buffer-size independence of the indexer)",
+    "C14": "exhaustive table folding over 256 bytes, constant propagation of reverse_complement on probes covering every byte value, constructor-argument binding of reverse(), row-list reversal structure, memo-invalidation completeness",
+    "C15": "validate-before-load dominance, strict-mtime comparison normal form with path-local resolution of operands, atomic-publication typestate (tmp -> write -> close -> replace), import-time vs call-time evaluation of the temporary's unique token",
+    "C16": "who-may-write enumeration over the CLI call graph, finite string-set folding of open modes and os.open flag words under the flag (enclosing tests and guard clauses), flag propagation along call edges",
+    "C17": "set-typed value inference + order-sensitive-use rule, interprocedural value-flow (taint) tracking of nondeterminism sources to written data, order-insensitivity of loops over directory listings, global-state mutation scan with validated-cache distinction, memoised-function purity incl. file reads",
+    "C18": "affine-equality abstract interpretation of every OverlapResult mutator path (span = Σ row lengths), order-region decision of the derived figures, memo-invalidation completeness for remembered what-if figures",
     "C19": "order-region decision procedure: implementation vs interval-arithmetic specification compared as affine normal forms on every weak order of the endpoints",
     "C20": "regex-AST language vs table-key inclusion (finite enumeration + pumping), token/type alternation of re.split, sort-key structure",
 }
